@@ -120,8 +120,8 @@ def run(ck):
         ck.cat("agreement_groups")
     # WIDE values: with values up to a few thousand the dynamic program holds hundreds of thousands of distinct states (a cap on the states kept, or any
     # other size-dependent shortcut, only shows here); one dp call takes about half a minute, so only a handful
-    for i in range(3 if q else 24):
-        k, n = (3, 13) if i % 3 != 2 else (4, 10)
+    for i in range(4 if q else 24):
+        k, n = (3, 14) if (q or i % 3 != 2) else (4, 11)
         vals = [rng.randint(20, 2000) for _ in range(n)]
         if i % 2 == 0:
             vals.sort()
